@@ -27,7 +27,7 @@ RULE = ('histories of 50-400 Deque calls (append/appendleft/extend/extendleft/po
 DISTINCT = ('cells', 'schedules')
 REQUIRED = ('calls_judged', 'file_backed_values', 'reopen_events', 'pickle_events', 'copy_events', 'fanout_deques',
             'django_deques', 'maxlen_trims', 'size_limit_squeezes', 'schedules_checked', 'free_runs',
-            'exceptions_matched')
+            'exceptions_matched', 'extends_from_failing_iterables')
 ASSUMPTIONS = ('maxlen None is reported by Deque as inf (declared normalisation)',
                'comparison operands are deque-typed on both sides; non-int indices are not generated',
                'reopening with a smaller maxlen is not generated (the statement does not fix it)')
@@ -106,13 +106,30 @@ def history(dc, sc, res, rng, label):
             elif op in ('extend', 'extendleft', 'iadd'):
                 vs = [val() for _ in range(rng.randrange(0, 4))]
                 args = (vs,)
+                if rng.random() < 0.25:
+                    # the iterable fails after yielding some items: what was consumed stays, the exception passes on
+                    stop = rng.randrange(0, len(vs) + 1)
+                    args = (vs, 'iterable raises after %d item(s)' % stop)
+
+                    def src():
+                        for j, x in enumerate(vs):
+                            if j == stop:
+                                raise ValueError('iterable failed')
+                            yield x
+                        raise ValueError('iterable failed')
+                    res.count('extends_from_failing_iterables')
+                else:
+                    kind_of_iterable = rng.randrange(4)
+
+                    def src():
+                        return [list(vs), tuple(vs), iter(vs), collections.deque(vs)][kind_of_iterable]
                 if op == 'iadd':
                     def f(x):
-                        x += vs
+                        x += src()
                         return None
                     got, exp = outcome(lambda: f(D)), outcome(lambda: f(R))
                 else:
-                    got, exp = outcome(lambda: getattr(D, op)(vs)), outcome(lambda: getattr(R, op)(vs))
+                    got, exp = outcome(lambda: getattr(D, op)(src())), outcome(lambda: getattr(R, op)(src()))
             elif op in ('pop', 'popleft'):
                 got, exp = outcome(getattr(D, op)), outcome(getattr(R, op))
             elif op == 'peek':
